@@ -12,11 +12,19 @@ sys.path.insert(0, HERE)
 import xv.props  # noqa: E402
 
 ALL = [f"C{i:02d}" for i in range(1, 21)]
+# a property is claimed only after its check has been validated on the unchanged tree and against seeded changes
+ACCEPTED = set(json.load(open(os.path.join(HERE, "tools", "accepted.json"))))
+under_construction = set()
 checks = []
 claimed = set()
 for m in sorted(pkgutil.iter_modules(xv.props.__path__), key=lambda m: m.name):
     mod = importlib.import_module(f"xv.props.{m.name}")
     if not getattr(mod, "CLAIMED", True):
+        continue
+    if not hasattr(mod, "ID"):
+        continue  # a helper module, not a property
+    if mod.ID not in ACCEPTED:
+        under_construction.add(mod.ID)
         continue
     claimed.add(mod.ID)
     checks.append(
@@ -39,7 +47,15 @@ for m in sorted(pkgutil.iter_modules(xv.props.__path__), key=lambda m: m.name):
 na_file = os.path.join(HERE, "tools", "not_applicable.json")
 na = json.load(open(na_file)) if os.path.exists(na_file) else {}
 not_applicable = [
-    {"property_id": p, "reason": na.get(p, "check not built yet: no Lean model/theorems for this property are committed, so it is not claimed")}
+    {
+        "property_id": p,
+        "reason": na.get(
+            p,
+            "check under construction: its model and harness exist but have not yet been validated on the unchanged tree and against seeded changes, so it is not claimed"
+            if p in under_construction
+            else "check not built yet: no Lean model/theorems for this property are committed, so it is not claimed",
+        ),
+    }
     for p in ALL
     if p not in claimed
 ]
